@@ -139,7 +139,7 @@ theorem numExp_some (b : Bool) (e : Char) (sg : Option Char) (ds tl : List Char)
     | some c =>
       have hc : (c = '+' || c = '-') = true := by rcases hs with rfl | rfl <;> decide
       refine ⟨b || c = '-', ?_⟩
-      simp only [List.singleton_append, List.cons_append, List.nil_append]
+      simp only [List.cons_append, List.nil_append]
       simp [numExp, hee, hc, hdd, hrest]
 
 theorem numSuffix_none (b : Bool) (tl : List Char)
